@@ -22,7 +22,7 @@ if [ "$PATCH" != "none" ]; then git -C $WT apply "$(realpath "$PATCH")" || { ech
 mkdir -p $H && rsync -a --delete --exclude target /verif/harness/ $H/
 sed -i "s#/repo/#$WT/#g" $H/vprop/Cargo.toml $H/netsim/Cargo.toml
 sed -i "s#^target-dir.*#target-dir = \"$TGT\"#" $H/.cargo/config.toml
-(cd $H && CARGO_NET_OFFLINE=true CARGO_TARGET_DIR=$TGT cargo build --offline --bin $id 2>&1 | tail -3) || exit 2
+(cd $H && CARGO_NET_OFFLINE=true CARGO_TARGET_DIR=$TGT cargo build --offline --bin $id $(grep -q "^ext_$id = " netsim/Cargo.toml && echo "--features netsim/ext_$id") 2>&1 | tail -3) || exit 2
 [ -x $TGT/debug/$id ] || { echo "build failed"; exit 2; }
 cd /verif && $TGT/debug/$id --no-evidence "$@"
 rc=$?
